@@ -2,7 +2,8 @@
 
 spec/JsonDoc.tla (part 2) is a state machine (doc, committed, dirty, alias) whose steps are the mutating
 methods/operators and the reads of dict and list applied to the attribute value or to a nested container,
-through the attribute or through an alias taken earlier, plus Commit and Reopen.
+through the attribute or through an alias taken earlier, storing a nested container moved from a second Json
+attribute / a second object (Move), plus Flush, Commit and Reopen.
 
 1. TLC model-checks the machine (invariants TypeOK, CleanIsSaved, AliasValid; action properties
    MutationMarks, ReadsArePure, CommitSaves, FailureIsNoop, ChangeIsMarked).
@@ -571,11 +572,11 @@ def plans(tier):
               dict(scalars='ScalarsTwo', conts='ContsNone', keys='KeysA', sliceb='SliceBMid', maxlen=2, maxseq=2, docs='DocsIntArr2', mc=True)]
     sim = [
         ('json', dict(spec='SimSpec', scalars='ScalarsJson', conts='ContsJson', keys='KeysAB', sliceb='SliceBMid', maxlen=3,
-                      maxseq=2, docs='DocsSim', burst=3, srcdocs='SrcJson', moves='MovesBoth'), 150 if quick else 1500, 30),
+                      maxseq=2, docs='DocsSim', burst=3, srcdocs='SrcJson', moves='MovesBoth'), 100 if quick else 1500, 30),
         ('intarray', dict(spec='SimSpec', scalars='ScalarsInt', conts='ContsNone', keys='KeysA', sliceb='SliceBMid', maxlen=3,
-                          maxseq=2, docs='DocsIntArr', burst=3, ops='OpsNoSetSlice'), 50 if quick else 400, 30),
+                          maxseq=2, docs='DocsIntArr', burst=3, ops='OpsNoSetSlice'), 35 if quick else 400, 30),
         ('strarray', dict(spec='SimSpec', scalars='ScalarsStr', conts='ContsNone', keys='KeysA', sliceb='SliceBMid', maxlen=3,
-                          maxseq=2, docs='DocsStrArr', burst=3, ops='OpsNoSetSlice'), 50 if quick else 400, 30),
+                          maxseq=2, docs='DocsStrArr', burst=3, ops='OpsNoSetSlice'), 35 if quick else 400, 30),
     ]
     if quick:
         graph = [
